@@ -135,7 +135,7 @@ def load(release=False, repo=REPO, use_cache=True):
     from . import inline
     inlined = inline.apply(facts)
     meta = {"tree_hash": th, "config": "release" if release else "dev", "cached": cached,
-            "helpers_expanded": inlined, "renamed_anchors": facts.get("renamed", []), "renamed_fields": facts.get("renamed_fields", []), "loops_unrolled": facts.get("unrolled", []), "combinators_expanded": facts.get("expanded_combinators", []), "pipelines_lowered": facts.get("pipelines_lowered", []),
+            "helpers_expanded": inlined, "renamed_anchors": facts.get("renamed", []), "renamed_fields": facts.get("renamed_fields", []), "renamed_types": facts.get("renamed_types", []), "loops_unrolled": facts.get("unrolled", []), "combinators_expanded": facts.get("expanded_combinators", []), "pipelines_lowered": facts.get("pipelines_lowered", []),
             "driver_s": round(driver_s, 2), "facts_file": path, "cfg": facts.get("cfg"),
             "n_fn_bodies": facts.get("n_fn_bodies")}
     return facts, meta
